@@ -231,7 +231,42 @@ def truncM (t : IType) (s : Style) : RStyle → (K → Int) → K → K → Int
   | .towardZero, tr, val, eps => if val > ((0 : Int) : K) then truncDownM t s tr val eps else truncUpM t s tr val eps
   | .towardInf, tr, val, eps => if val > ((0 : Int) : K) then truncUpM t s tr val eps else truncDownM t s tr val eps
 
+/-! ### the shape of the dispatching specialisations and of the vector loops (round four)
+
+`Gen/C17RT.lean` (regenerated from float_cmp.cc on every run) holds, as `Dispatch` values, what the specialisations
+`round_t / trunc_t<I,T,cstyle,towardZero|towardInf>` say: the test of `val` against `T(0)` and the two specialisations they
+forward to.  `Props/C17.lean` (`round_dispatch_tied`, …) proves that `round`, `trunc`, `roundM`, `truncM` above are
+`Dispatch.run` of the regenerated values.  `Gen/C17Vec.lean` holds the component loops of the vector overloads as `fillLoop`s. -/
+
+/-- a test of the argument against `T(0)`: `val > T(0)`, `val >= T(0)`, `val < T(0)`, `val <= T(0)` -/
+inductive ZeroTest where
+  | gt | ge | lt | le
+  deriving Repr, DecidableEq
+
+def ZeroTest.eval (c : ZeroTest) (val : K) : Bool :=
+  match c with
+  | .gt => decide (val > ((0 : Int) : K))
+  | .ge => decide (val ≥ ((0 : Int) : K))
+  | .lt => decide (val < ((0 : Int) : K))
+  | .le => decide (val ≤ ((0 : Int) : K))
+
+/-- `if(TEST) return X_t<I,T,cstyle,thenStyle>::X(val, epsilon); else return X_t<I,T,cstyle,elseStyle>::X(val, epsilon);` -/
+structure Dispatch where
+  test : ZeroTest
+  thenStyle : RStyle
+  elseStyle : RStyle
+  deriving Repr, DecidableEq
+
+/-- `base rs` = the specialisation for rounding style `rs` -/
+def Dispatch.run (d : Dispatch) (base : RStyle → K → K → Int) (val eps : K) : Int :=
+  if d.test.eval val then base d.thenStyle val eps else base d.elseStyle val eps
+
 end cmp
+
+/-- `std::vector<I> res(size); for(i = lo; i < hi; ++i) res[i] = f(i); return res;` — the entries outside `[lo, hi)` keep
+    the value `res` was created with (0 for `std::vector<I>(size)`) -/
+def fillLoop (size lo hi : Nat) (f : Nat → Int) : List Int :=
+  (List.range size).map fun i => if lo ≤ i ∧ i < hi then f i else 0
 
 /-! ### the instances the driver runs on exact inputs: the rational numbers of core Lean
 
